@@ -39,7 +39,7 @@ RULES = {
     "C13": "seeded generation over owning sources and all terminals; global drop table indexed by per-item serial + canary: after the result is dropped every item born must have been dropped exactly once. non-trivial: items were created by the pipeline and >= 2 workers executed closures (or mode Q); distinct: (configuration class, interleaving signature)",
     "C14": "fault enumeration: one or two injected panics (closure x element id / call number) per case over sources x shapes x terminals x configurations; observed: catch_unwind result, process survival, double/garbage drops in the drop table. non-trivial: an injected fault fired; distinct: (configuration class incl. fault, interleaving signature)",
     "C15": "grid over input length (0..33 dense + long samples) x NumThreads {Auto,1..6,8,16,64} x ChunkSize {Auto, Exact(c), Min(c)}, c incl. len-1, len, len+1, 64, 1000, 2^20; each case executed under the configuration and under num_threads(1), results compared (multiset for collect_x), panics reported. non-trivial: input of >= 1 element; distinct: configuration class",
-    "C16": "enumeration of every compiled pipeline (all 32 type x transformation transitions, 6 source kinds) x 6 terminal/parameter variants; closure-call and source-consumption counters read after every construction step. non-trivial: pipeline with >= 1 transformation; distinct: configuration class",
+    "C16": "enumeration of every compiled pipeline (all 32 type x transformation transitions, 6 source kinds) x 9 parameter-setting variants x all 24 terminals (four groups of six); closure-call and source-consumption counters read after every construction step; the parameters in effect at the terminal call compared with what the runner resolved for the terminal's run (RunBegin hook). non-trivial: pipeline with >= 1 transformation; distinct: configuration class",
 }
 
 ASSUME = {
@@ -492,7 +492,12 @@ def run_bigindex(prop, tier, seed, harness, repo, work, probe=False, huge=False)
         xk = ("plain_type_probe_runs(std maps/sets/heaps/lists/arrays/copied/cloned x chains x terminals)" if probe
               else ("runs_with_chunk_sizes_beyond_2^20_over_millions_of_elements" if huge else "pipelines_over_more_than_2^32_positions"))
         rep = dict(evaluations=nev, nontrivial=nev, multi_worker=0, events=0, closure_calls=0, inconclusive=0,
-                   by_mode={"S": 0, "F": nev, "Q": 0}, extra={xk: nev},
+                   by_mode={"S": 0, "F": nev, "Q": 0},
+                   extra=dict([(xk, nev)] + ([("thread_creation_fault_runs", raw.get("fault_runs", 0)),
+                                              ("runs_in_which_pthread_create_was_made_to_fail", raw.get("fault_fired", 0)),
+                                              ("fault_runs_that_propagated_a_panic", raw.get("fault_panic_propagated", 0)),
+                                              ("fault_runs_that_returned_the_correct_result", raw.get("fault_correct_result", 0))]
+                                             if probe and raw.get("fault_runs") else [])),
                    distinct=[hashlib.sha1(c.encode()).hexdigest()[:16] for c in cases], signatures=[], other_props={},
                    samples=[{"case": c, "n": raw.get("n")} for c in cases[:1]], planned=len(cases), timed_out=False,
                    violations=[dict(prop=prop, key=(re.match(r"\[key=([^\]]+)\]", m).group(1) if m.startswith("[key=") else name),
